@@ -215,10 +215,10 @@ class Stubs:
     """Install the stand-ins as module globals of the code under test for the duration of one attempt."""
 
     NAMES = ('open', 'os', 'np', 'time', 'datetime', 'psutil', 'pathos_mp', 'python_mp', 'print',
-             'pathos_installed', 'psutil_installed', 'glob')
+             'pathos_installed', 'psutil_installed', 'glob', 'shutil')
 
     def __init__(self, module, fs, kernel, cpus, mem_total, stats):
-        from .simfs import SimOS, SimNP, SimGlob
+        from .simfs import SimOS, SimNP, SimGlob, SimShutil
         self.module = module
         self.saved = {}
         self.values = {
@@ -226,7 +226,7 @@ class Stubs:
             'datetime': SimDatetime(kernel), 'psutil': SimPsutil(cpus, mem_total),
             'pathos_mp': SimPathosMP(kernel, stats), 'python_mp': SimPythonMP(),
             'print': lambda *a, **k: kernel.note('print', ' '.join(str(x) for x in a)[:80]),
-            'pathos_installed': True, 'psutil_installed': True, 'glob': SimGlob(fs),
+            'pathos_installed': True, 'psutil_installed': True, 'glob': SimGlob(fs), 'shutil': SimShutil(fs),
         }
 
     def __enter__(self):
